@@ -273,6 +273,11 @@ impl Segments {
     //     self.snd_una + self.segments.len() as u16
     // }
 
+    /// The first sequence number that is not acknowledged yet (the next one to enqueue if empty).
+    pub fn snd_una(&self) -> SeqNr {
+        self.snd_una
+    }
+
     pub fn first_seq_nr(&self) -> Option<SeqNr> {
         if self.segments.is_empty() {
             None
